@@ -957,6 +957,7 @@ func c17TextWitness(text string) map[string]any {
 }
 
 type c17Judge struct {
+	slowAlone int // inputs that timed out in a batch but finished alone
 	m    *vk.Monitor
 	rn   *c17Runner
 	seen map[string]int
@@ -1200,8 +1201,16 @@ func (j *c17Judge) judgeText(c *c17Case, o c17Out) {
 	if sig := c17CrashSigOf(c, o); sig != "" {
 		if o.Hang {
 			if !j.rn.confirmHang(c.in) {
+				// the input finished when it had a process to itself: not a hang, and the slow batch run
+				// says nothing else about it; a machine so loaded that this keeps happening observes too little
 				m.Count("hang_not_reproduced_alone", 1)
-				m.Inconclusive("an input exceeded %ds once but not when re-run alone (load?)", c17HangSeconds)
+				j.mu.Lock()
+				j.slowAlone++
+				n := j.slowAlone
+				j.mu.Unlock()
+				if n > 25 {
+					m.Inconclusive("%d inputs exceeded %ds in a batch but not when re-run alone (overloaded machine)", n, c17HangSeconds)
+				}
 				return
 			}
 			sig = "hang:" + strings.SplitN(c.class, ":", 2)[0]
